@@ -52,7 +52,7 @@ func hasSugar(e ast.Expr) bool {
 // sugar forms nested in every operand position of every node kind
 var sugarKernels = []string{"a + b", "-a", "c ? a : b", "o.f(a)", "(a)", "a.b", "a[b]", "f(a)", "[a]", "[a: b]", "{x: a}",
 	// literal operands (what a desugarer that folds constants would look at)
-	"true ? a : b", "false ? a : b", "(true) ? 1 : \"x\"", "1 + 2", "-1", "!true", "(f(a + b))", "(o.f(a))", "([a + b])"}
+	"true ? a : b", "false ? a : b", "(true) ? 1 : \"x\"", "1 + 2", "-1", "!true", "a and b", "a or b", "not a", "a and not b or z", "(f(a + b))", "(o.f(a))", "([a + b])"}
 var sugarContexts = []string{
 	"%s", "%s + z", "z + %s", "-%s", "(%s)", "%s ? z : w", "z ? %s : w", "z ? w : %s",
 	"f(%s)", "f(z, %s)", "%s.g(z)", "z.g(%s)", "[%s, z]", "[z: %s]", "[%s: z]", "{x: %s}", "%s[z]", "z[%s]", "(%s).h", "g(%s)(z)",
